@@ -27,6 +27,9 @@ claimed = {
  "C13": dict(sec="7 C13",
    text="Proof that every POP3 command sequence preserves I_pop (one flag per snapshot message, msgCount == number of set flags, by induction lemmas over a recursive count), that the snapshot slice is assigned only at login, that DELE clears exactly one set flag, RSET sets all, STAT's loop count equals msgCount, LIST/UIDL send exactly msgCount entry lines, that RemoveMessage is called only by QUIT in TRANSACTION state and exactly for the marked messages (ghost removal log, in order, with the message's own id), that any other end of the command loop removes nothing, and that no index/nil/type-assertion panic is reachable in handler.go.",
    note="assumed: storage.Store / storage.Message interface contracts (getters pure), fmt.Fprint counted but content not modelled, bufio/net/tls contracts, TLS out of scope; listener not covered"),
+ "C14": dict(sec="7 C14",
+   text="Proof, for every request and manager state, that each REST v1 handler and each web-UI mailbox handler makes exactly the one manager call it is named after, with the canonical mailbox name and the id from the URL, changes nothing else (ghost call log of message.Manager), answers 404 exactly when the manager says ErrNotExist, copies every metadata field of the list answer index by index, and cannot dereference nil; that StoreManager.GetMessage / SourceReader refine the Manager contract 'a result or an error, never neither' given the Store interface contract; and that each Go-client operation sends the method its route is registered for and a JSON body where the handler decodes one.",
+   note="assumed: net/http, encoding/json, io.Copy, mux.Vars deliver the decoded path segments; the Store interface contract (GetMessage: message xor error) is ASSUMED here until both back-ends are verified against it (C07) - the memory store's GetMessage of a missing id returns (nil,nil), which is where the web-UI nil dereference comes from; URL escaping / routing of names with URL-significant characters is not decided; client.ListMailboxWithContext is not under contract (a JSON null element would be dereferenced)"),
  "C17": dict(sec="7 C17",
    text="Proof of the Go side for MAIL and RCPT: a recipient / sender is accepted only if the hook's last answer was not deny and (it was allow, or it was defer / absent and policy accepts); deny leaves envelope and state unchanged.",
    note="assumed: hook results are arbitrary (Lua semantics not modelled); Emit's loop and the Lua glue are not yet under contract"),
@@ -39,7 +42,6 @@ pending = {
  "C09": "monitor-invariant obligations not built yet; see DESIGN.md section 7",
  "C10": "file-store contracts not built yet; see DESIGN.md section 7",
  "C11": "ghost file system not built yet; see DESIGN.md section 7",
- "C14": "HTTP handler contracts not built yet; see DESIGN.md section 7",
  "C15": "hub contracts not built yet; see DESIGN.md section 7",
  "C16": "event-emission contracts not built yet; see DESIGN.md section 7",
  "C18": "decided by third-party HTML/CSS parsers (bluemonday, x/net/html, gorilla/css): no contract on inbucket's glue can express 'no active content' without assuming the property (DESIGN.md section 7, C18)",
